@@ -623,6 +623,9 @@ func (fx *FnCtx) setVar(st *State, o *types.Var, v Val) {
 		v.T = c
 	}
 	st.vars[o] = v
+	if fx.hiddenNames[o.Name()] {
+		return
+	}
 	if _, isNamed := st.named[o.Name()]; isNamed || fx.isSpecVisible(o) {
 		st.named[o.Name()] = v
 	}
